@@ -243,6 +243,10 @@ func WorkerMain(t *testing.T, w World) {
 	if res.Tier == "" {
 		res.Tier = "quick"
 	}
+	minBudget, minEach, minSpent := 40*time.Second, 20*time.Second, time.Duration(0)
+	if res.Tier == "thorough" {
+		minBudget, minEach = 15*time.Minute, 90*time.Second
+	}
 	defer func() {
 		res.WallS = time.Since(start).Seconds()
 		b, _ := json.Marshal(res)
@@ -357,7 +361,18 @@ func WorkerMain(t *testing.T, w World) {
 				}
 				continue
 			}
-			min, mo := Minimise(t, w, s, v.Class, 400, 90*time.Second)
+			// minimisation has a budget per worker: a change that breaks a
+			// property in dozens of ways must end in a report, not in the watchdog
+			left := minBudget - minSpent
+			if left > minEach {
+				left = minEach
+			}
+			if left < time.Second {
+				left = 0 // only the base execution; the script stays as it is
+			}
+			t0 := time.Now()
+			min, mo := Minimise(t, w, s, v.Class, 400, left)
+			minSpent += time.Since(t0)
 			vr := ViolationReport{Class: v.Class, Detail: v.Detail, RunSeed: runSeed, RunIndex: i, Count: 1,
 				OrigOps: len(s.Ops) + len(s.Faults) + len(s.Sched) + len(s.Boots),
 				MinOps:  len(min.Ops) + len(min.Faults) + len(min.Sched) + len(min.Boots), Fingerprint: mo.FP.Sum()}
